@@ -83,16 +83,16 @@ Proof. split; [exact ascii_sim_ok | intros; reflexivity]. Qed.
 Example C20_witness_backref :
   let w := [120; 97; 66; 99; 49; 50; 65] in
   let w' := [88; 65; 98; 67; 49; 50; 97] in
-  ci_closed ascii_sim (ex_env w) ex_tree1
-  /\ case_variant ascii_sim (ex_env w) (ex_env w')
-  /\ find (ex_env w') 40 ex_tree1 false 0 (-1) = find (ex_env w) 40 ex_tree1 false 0 (-1)
-  /\ find (ex_env w) 40 ex_tree1 false 0 (-1)
+  ci_closed ascii_sim (case_ex_env w) case_ex_tree1
+  /\ case_variant ascii_sim (case_ex_env w) (case_ex_env w')
+  /\ find (case_ex_env w') 40 case_ex_tree1 false 0 (-1) = find (case_ex_env w) 40 case_ex_tree1 false 0 (-1)
+  /\ find (case_ex_env w) 40 case_ex_tree1 false 0 (-1)
      = Ok (Some {| pos := 7; caps := [(1, [(1, 1)]); (0, [(1, 6)])] |})
-  /\ findk (ex_env w') 40 ex_tree1 false 0 (-1)
+  /\ findk (case_ex_env w') 40 case_ex_tree1 false 0 (-1)
      = Ok (Some {| pos := 7; caps := [(1, [(1, 1)]); (0, [(1, 6)])] |}).
 Proof.
-  cbv zeta. split; [apply ex_closedb_closed; vm_compute; reflexivity|].
-  split; [apply ex_case_variant_b; vm_compute; reflexivity|].
+  cbv zeta. split; [apply case_ex_closedb_closed; vm_compute; reflexivity|].
+  split; [apply case_ex_variant_b; vm_compute; reflexivity|].
   vm_compute. repeat split; reflexivity.
 Qed.
 
@@ -101,13 +101,13 @@ Qed.
 Example C20_witness_classes :
   let w := [45; 120; 89; 100; 113; 46] in
   let w' := [45; 88; 121; 68; 81; 46] in
-  ci_closed ascii_sim (ex_env w) ex_tree2
-  /\ case_variant ascii_sim (ex_env w) (ex_env w')
-  /\ find (ex_env w') 40 ex_tree2 false 0 (-1) = find (ex_env w) 40 ex_tree2 false 0 (-1)
-  /\ find (ex_env w) 40 ex_tree2 false 0 (-1) = Ok (Some {| pos := 5; caps := [(0, [(1, 4)])] |}).
+  ci_closed ascii_sim (case_ex_env w) case_ex_tree2
+  /\ case_variant ascii_sim (case_ex_env w) (case_ex_env w')
+  /\ find (case_ex_env w') 40 case_ex_tree2 false 0 (-1) = find (case_ex_env w) 40 case_ex_tree2 false 0 (-1)
+  /\ find (case_ex_env w) 40 case_ex_tree2 false 0 (-1) = Ok (Some {| pos := 5; caps := [(0, [(1, 4)])] |}).
 Proof.
-  cbv zeta. split; [apply ex_closedb_closed; vm_compute; reflexivity|].
-  split; [apply ex_case_variant_b; vm_compute; reflexivity|].
+  cbv zeta. split; [apply case_ex_closedb_closed; vm_compute; reflexivity|].
+  split; [apply case_ex_variant_b; vm_compute; reflexivity|].
   vm_compute. repeat split; reflexivity.
 Qed.
 
@@ -116,13 +116,13 @@ Qed.
 Example C20_witness_rtl :
   let w := [45; 97; 98; 67; 45] in
   let w' := [45; 65; 66; 99; 45] in
-  ci_closed ascii_sim (ex_env w) ex_tree3
-  /\ case_variant ascii_sim (ex_env w) (ex_env w')
-  /\ find (ex_env w') 40 ex_tree3 true 5 (-1) = find (ex_env w) 40 ex_tree3 true 5 (-1)
-  /\ find (ex_env w) 40 ex_tree3 true 5 (-1) = Ok (Some {| pos := 1; caps := [(0, [(1, 3)])] |}).
+  ci_closed ascii_sim (case_ex_env w) case_ex_tree3
+  /\ case_variant ascii_sim (case_ex_env w) (case_ex_env w')
+  /\ find (case_ex_env w') 40 case_ex_tree3 true 5 (-1) = find (case_ex_env w) 40 case_ex_tree3 true 5 (-1)
+  /\ find (case_ex_env w) 40 case_ex_tree3 true 5 (-1) = Ok (Some {| pos := 1; caps := [(0, [(1, 3)])] |}).
 Proof.
-  cbv zeta. split; [apply ex_closedb_closed; vm_compute; reflexivity|].
-  split; [apply ex_case_variant_b; vm_compute; reflexivity|].
+  cbv zeta. split; [apply case_ex_closedb_closed; vm_compute; reflexivity|].
+  split; [apply case_ex_variant_b; vm_compute; reflexivity|].
   vm_compute. repeat split; reflexivity.
 Qed.
 
@@ -131,13 +131,13 @@ Qed.
 (* a plain One 'a' (what the parser must NOT leave for a cased letter): "a" matches, "A" does not,
    although the inputs are case variants; and the checker rejects the tree. *)
 Example C20_without_ci_closed_results_differ :
-  case_variant ascii_sim (ex_env [97]) (ex_env [65])
-  /\ ci_closedb ascii_pairs (ex_env [97]) (NChar COne 0 97) = false
-  /\ ~ ci_closed ascii_sim (ex_env [97]) (NChar COne 0 97)
-  /\ find (ex_env [97]) 10 (NChar COne 0 97) false 0 (-1) = Ok (Some {| pos := 1; caps := [] |})
-  /\ find (ex_env [65]) 10 (NChar COne 0 97) false 0 (-1) = Ok None.
+  case_variant ascii_sim (case_ex_env [97]) (case_ex_env [65])
+  /\ ci_closedb ascii_pairs (case_ex_env [97]) (NChar COne 0 97) = false
+  /\ ~ ci_closed ascii_sim (case_ex_env [97]) (NChar COne 0 97)
+  /\ find (case_ex_env [97]) 10 (NChar COne 0 97) false 0 (-1) = Ok (Some {| pos := 1; caps := [] |})
+  /\ find (case_ex_env [65]) 10 (NChar COne 0 97) false 0 (-1) = Ok None.
 Proof.
-  split; [apply ex_case_variant_b; vm_compute; reflexivity|].
+  split; [apply case_ex_variant_b; vm_compute; reflexivity|].
   split; [vm_compute; reflexivity|].
   split; [|vm_compute; split; reflexivity].
   intros H. specialize (H 65). cbn in H. assert (65 = 97) by (apply H; unfold ascii_sim; lia). lia.
@@ -146,12 +146,12 @@ Qed.
 (* the set [A-Za-z-[m]] that addCaseEquivalences built for (?i)[a-z-[m]] before it descended into
    the subtraction (known finding, fixed): not ci_closed, and "M" matches while "m" does not. *)
 Example C20_unclosed_subtraction_results_differ :
-  case_variant ascii_sim (ex_env [109]) (ex_env [77])
-  /\ ci_closedb ascii_pairs (ex_env [109]) (NChar CSet 1 6) = false
-  /\ find (ex_env [109]) 10 (NChar CSet 1 6) false 0 (-1) = Ok None
-  /\ find (ex_env [77]) 10 (NChar CSet 1 6) false 0 (-1) = Ok (Some {| pos := 1; caps := [] |}).
+  case_variant ascii_sim (case_ex_env [109]) (case_ex_env [77])
+  /\ ci_closedb ascii_pairs (case_ex_env [109]) (NChar CSet 1 6) = false
+  /\ find (case_ex_env [109]) 10 (NChar CSet 1 6) false 0 (-1) = Ok None
+  /\ find (case_ex_env [77]) 10 (NChar CSet 1 6) false 0 (-1) = Ok (Some {| pos := 1; caps := [] |}).
 Proof.
-  split; [apply ex_case_variant_b; vm_compute; reflexivity|].
+  split; [apply case_ex_variant_b; vm_compute; reflexivity|].
   vm_compute. repeat split; reflexivity.
 Qed.
 
@@ -159,11 +159,11 @@ Qed.
    why ci_closed demands the Ci bit on Ref, which is what the parser sets under IgnoreCase. *)
 Example C20_exact_backref_results_differ :
   let t := NCapture 0 0 (-1) (NConcat 0 [NCapture 0 1 (-1) (NChar CSet 0 0); NRef 0 1]) in
-  case_variant ascii_sim (ex_env [97; 97]) (ex_env [97; 65])
-  /\ find (ex_env [97; 97]) 20 t false 0 (-1)
+  case_variant ascii_sim (case_ex_env [97; 97]) (case_ex_env [97; 65])
+  /\ find (case_ex_env [97; 97]) 20 t false 0 (-1)
      = Ok (Some {| pos := 2; caps := [(1, [(0, 1)]); (0, [(0, 2)])] |})
-  /\ find (ex_env [97; 65]) 20 t false 0 (-1) = Ok None.
+  /\ find (case_ex_env [97; 65]) 20 t false 0 (-1) = Ok None.
 Proof.
-  cbv zeta. split; [apply ex_case_variant_b; vm_compute; reflexivity|].
+  cbv zeta. split; [apply case_ex_variant_b; vm_compute; reflexivity|].
   vm_compute. split; reflexivity.
 Qed.
